@@ -181,12 +181,17 @@ def h_dst_fin(ctx, NMAX):
     ctx.covered("loop_exhausted")
 
 
-def h_dst_nak(ctx, NMAX):
+def h_dst_nak(ctx, NMAX, multi=False):
     w = World(ctx)
     limit = ctx.int("limit", 1, NMAX)
     L = ctx.int("L", 1, hdst.LMAX)
-    sc = DstScenario(ctx, w, mode=ACK, cktype=ChecksumType.CRC_32, closure=False, seg=L,
-                     rig_kwargs={"nak_limit": limit, "ack_limit": 1, "immediate_nak": bool(ctx.choice("imm", 2))})
+    kw = {"nak_limit": limit, "ack_limit": 1, "immediate_nak": bool(ctx.choice("imm", 2))}
+    if multi:
+        # maximum packet length that admits exactly one segment request per NAK PDU
+        kw["max_packet_len"] = 4 + 2 * 2 + 2 + 1 + 8 + 8
+    sc = DstScenario(ctx, w, mode=ACK, cktype=ChecksumType.CRC_32, closure=False, seg=L, rig_kwargs=kw)
+    if multi:
+        return _nak_multi(ctx, w, sc, limit, L, NMAX)
     sc.M = 2
     S = sc.S
     ctx.assume(S <= 2 * L, S > L)  # two segments
@@ -242,6 +247,49 @@ def h_dst_nak(ctx, NMAX):
     ctx.covered("loop_exhausted")
 
 
+def _nak_multi(ctx, w, sc, limit, L, NMAX):
+    """three segments, the middle one received: two gaps, one NAK PDU each per sequence"""
+    sc.M = 3
+    S = sc.S
+    ctx.assume(S <= 3 * L, S > 2 * L)
+    for o in (sc.md(), sc.grid_fd(1), sc.eof()):
+        hdst.end_if_other_property(ctx, o)
+    o = sc.tick0()
+    hdst.end_if_other_property(ctx, o)
+    want = [(0, L), (2 * L, S)]
+
+    def full_sequence(pdus):
+        naks = [p for p in pdus if pdu_kind(p) == "NAK"]
+        reqs = [tuple(q) for p in naks for q in p.segment_requests]
+        return len(naks) == 2 and len(reqs) == 2 and sand(reqs[0][0] == want[0][0], reqs[0][1] == want[0][1],
+                                                            reqs[1][0] == want[1][0], reqs[1][1] == want[1][1])
+    ctx.prop("first_nak_sequence", full_sequence(o.pdus), lambda: {"sig": "first NAK sequence is not two PDUs"})
+    ctx.covered("multi_pdu_sequence")
+    rt = Retry(limit)
+    for r in range(NMAX + 2):
+        o = sc.tick(f"dt{r}")
+        hdst.end_if_other_property(ctx, o)
+        if not rt.expired():
+            ctx.prop("nothing_between_expiries", not o.pdus and not o.faults,
+                     lambda: {"sig": "NAK re-issued or fault without timer expiry"})
+            continue
+        rt.n += 1
+        if rt.n < limit:
+            ctx.covered("nak_reissued")
+            ctx.prop("resend_on_each_expiry", full_sequence(o.pdus),
+                     lambda: {"sig": "multi-PDU NAK sequence not re-issued completely on expiry"})
+            ctx.prop("no_fault_before_limit", not o.faults,
+                     lambda: {"sig": "NAK Limit Reached before the limit-th expiry (multi-PDU sequence)"})
+            rt.restart()
+            continue
+        ctx.covered("limit_fault")
+        lf = [f for f in o.faults if f[2] == CC.NAK_LIMIT_REACHED]
+        ctx.prop("limit_fault_exactly_at_limit", len(lf) == 1 and lf[0][0] == "cancel",
+                 lambda: {"sig": "no NAK Limit Reached fault at the limit-th expiry (multi-PDU sequence)"})
+        return
+    ctx.covered("loop_exhausted")
+
+
 def plan(tier):
     n = 3 if tier == "quick" else 6
     return [
@@ -251,11 +299,14 @@ def plan(tier):
              obligations=["limit_fault", "peer_resumed", "finished_resent"]),
         Spec(f"dest/nak-procedure/Nmax={n}", "vf.harness.c04:h_dst_nak", {"NMAX": n}, twin_share=0.2,
              obligations=["limit_fault", "nak_reissued", "progress_resets_count"]),
+        Spec(f"dest/nak-procedure/two-PDU-sequences/Nmax={n}", "vf.harness.c04:h_dst_nak",
+             {"NMAX": n, "multi": True}, twin_share=0.2,
+             obligations=["limit_fault", "nak_reissued", "multi_pdu_sequence"]),
     ]
 
 
 BOUNDS = {
-    "quick": "limit symbolic in [1,3]; clock advance per call symbolic 0..2 intervals; sender EOF procedure (incl. EOF(cancel) phase and abandonment, ACK arriving at any round), receiver Finished procedure (incl. Finished(cancel) phase and abandonment, ACK at any round), receiver NAK procedure on a two-segment file (progress at any round resets the count; after the limit fault the Finished(cancel) exchange with limit 1 must end in abandonment)",
+    "quick": "limit symbolic in [1,3]; clock advance per call symbolic 0..2 intervals; sender EOF procedure (incl. EOF(cancel) phase and abandonment, ACK arriving at any round), receiver Finished procedure (incl. Finished(cancel) phase and abandonment, ACK at any round), receiver NAK procedure on a two-segment file and, with a maximum packet length forcing one request per NAK PDU, on a three-segment file with two gaps (two NAK PDUs per sequence) (progress at any round resets the count; after the limit fault the Finished(cancel) exchange with limit 1 must end in abandonment)",
     "thorough": "limit symbolic in [1,6]",
 }
 OUTSIDE = "limits above Nmax; the two waits the documentation lists as unimplemented inactivity handling; check-limit timers (C13); handler codes other than the defaults (C14)"
